@@ -18,7 +18,7 @@ ASSUMPTIONS = ['dtcwt 0.14 (NumPy backend) Transform2d.forward is the specificat
                'sides <= 37, J <= 5']
 TIMEOUT = {'quick': 900, 'thorough': 3300}
 WORKER_BUDGET = {'quick': 600, 'thorough': 2700}
-MIN_HELD = {'quick': 150, 'thorough': 750}
+MIN_HELD = {'quick': 150, 'thorough': 16025}
 SIDES = [2, 3, 4, 5, 6, 7, 8, 9, 10, 11, 12, 13, 14, 16, 17, 18, 20, 22, 26, 30, 33, 34, 37]
 
 
